@@ -150,8 +150,16 @@ struct AjExec {
   std::string stop_reason;
   uint64_t steps = 0;
 
-  AjExec(int ndocs, int nrefs) {
-    for (int i = 0; i < ndocs; i++) { allocs.emplace_back(new SpyAllocator); docs.emplace_back(new AJ::JsonDocument(allocs.back().get())); }
+  // what the last operation reported (C05 judges these under injected failures)
+  bool last_has_ret = false, last_ret = true, last_has_bound = false, last_bound = true;
+  int last_code = -1;
+
+  AjExec(int ndocs, int nrefs, bool shared_allocator = false) {
+    if (shared_allocator) allocs.emplace_back(new SpyAllocator);
+    for (int i = 0; i < ndocs; i++) {
+      if (!shared_allocator) allocs.emplace_back(new SpyAllocator);
+      docs.emplace_back(new AJ::JsonDocument(allocs.back().get()));
+    }
     refs.resize((size_t)nrefs);
   }
   ~AjExec() { docs.clear(); }
@@ -208,12 +216,14 @@ struct AjExec {
 
   void apply(const Op& o, const Outcome& exp, Model& model, Report& rep) {
     steps++;
+    last_has_ret = last_has_bound = false; last_ret = last_bound = true; last_code = -1;
     bool kc = (o.keykind & 1) != 0;
     auto ovf = [&]() { return docs[(size_t)model.target_doc(o.t)]->overflowed(); };
     switch (o.k) {
       case OpK::Set: {
         bool bound = true;
         bool ret = do_set(o.t, kc, o.val, o.strkind, bound);
+        last_has_ret = true; last_ret = ret;
         // don't-care 15: the boolean result of a write through an unbound reference is not judged
         if (exp.bound && !ovf() && ret != exp.ret) rep.violation("return-value", std::string("set() returned ") + (ret ? "true" : "false") + ", model predicts " + (exp.ret ? "true" : "false"));
         break;
@@ -223,12 +233,14 @@ struct AjExec {
         if (o.k == OpK::ToArray) at(o.t, kc, [&](auto&& v) { AJ::JsonArray a = v.template to<AJ::JsonArray>(); bound = !a.isNull(); nv = a; });
         else if (o.k == OpK::ToObject) at(o.t, kc, [&](auto&& v) { AJ::JsonObject ob = v.template to<AJ::JsonObject>(); bound = !ob.isNull(); nv = ob; });
         else at(o.t, kc, [&](auto&& v) { nv = v.template to<AJ::JsonVariant>(); bound = !nv.isUnbound(); });
+        last_has_bound = true; last_bound = bound;
         if (bound != exp.bound && !ovf()) rep.violation("return-value", std::string("to<T>() returned a ") + (bound ? "bound" : "unbound") + " reference, model predicts the opposite");
         if (o.newref >= 0 && exp.newref_bound) refs[(size_t)o.newref] = nv;
         break;
       }
       case OpK::AddValue: {
         bool ret = do_add(o.t, kc, o.val, o.strkind);
+        last_has_ret = true; last_ret = ret;
         if (exp.bound && !ovf() && ret != exp.ret) rep.violation("return-value", std::string("add(value) returned ") + (ret ? "true" : "false") + ", model predicts " + (exp.ret ? "true" : "false"));
         break;
       }
@@ -237,6 +249,7 @@ struct AjExec {
         if (o.aux == 1) at(o.t, kc, [&](auto&& v) { AJ::JsonArray a = v.template add<AJ::JsonArray>(); bound = !a.isNull(); nv = a; });
         else if (o.aux == 2) at(o.t, kc, [&](auto&& v) { AJ::JsonObject ob = v.template add<AJ::JsonObject>(); bound = !ob.isNull(); nv = ob; });
         else at(o.t, kc, [&](auto&& v) { nv = v.template add<AJ::JsonVariant>(); bound = !nv.isUnbound(); });
+        last_has_bound = true; last_bound = bound;
         if (bound != exp.newref_bound && !ovf()) rep.violation("return-value", std::string("add<T>() returned a ") + (bound ? "bound" : "unbound") + " reference, model predicts the opposite");
         if (o.newref >= 0 && exp.newref_bound && bound) refs[(size_t)o.newref] = nv;
         break;
@@ -283,6 +296,7 @@ struct AjExec {
         if (how == 0) at(o.t, kc, [&](auto&& v) { ret = v.set(src); });
         else if (how == 1) at(o.t, kc, [&](auto&& v) { if constexpr (std::is_same<std::decay_t<decltype(v)>, AJ::JsonVariant>::value) v.set(src); else v = src; ret = true; });
         else at(o.t, kc, [&](auto&& v) { ret = v.set(sv); });
+        if (how != 1) { last_has_ret = true; last_ret = ret; }
         if (exp.bound && how != 1 && !ovf() && ret != exp.ret) rep.violation("return-value", std::string("set(variant) returned ") + (ret ? "true" : "false") + ", model predicts " + (exp.ret ? "true" : "false"));
         break;
       }
@@ -313,6 +327,7 @@ struct AjExec {
         if (o.k == OpK::DeserJson) at(o.t, kc, [&](auto&& v) { err = AJ::deserializeJson(v, (const char*)in, o.text.size()); });
         else at(o.t, kc, [&](auto&& v) { err = AJ::deserializeMsgPack(v, (const char*)in, o.text.size()); });
         free(in);
+        last_code = (int)err.code();
         if (!err_in_enum(err)) rep.violation("code-out-of-enum", "deserialize returned a value outside the documented codes");
         if (exp.code >= 0 && (int)err.code() != exp.code && !ovf())
           rep.violation("deserialize-code", std::string("returned ") + err_name(err) + ", model predicts code " + std::to_string(exp.code));
